@@ -3,6 +3,7 @@
 -/
 import Gmars.Model.Lex
 import Gmars.Proofs.CompileWF
+import Gmars.Proofs.AsmTerm
 
 namespace Gmars.Props.C05
 open Gmars
@@ -44,5 +45,40 @@ theorem compile_stage_err_xor {cfg : Config} {lines : List SourceLine} {ameta : 
   rcases Compile.compile_total (cfg := cfg) (lines := lines) (ameta := ameta) hlex with h | ⟨w, _, h, _⟩
   · exact Or.inl h
   · exact Or.inr ⟨w, h⟩
+
+/-- `no_hang` + `no_panic` — THE theorem of C05. For EVERY byte string (valid programs, token
+    soup, invalid UTF-8, NUL and ^Z bytes, unterminated last lines …) and EVERY configuration, the
+    model of CompileWarrior — lexer, symbol scanner, FOR expander with its pass loop, parser,
+    compiler — returns: it neither panics nor runs into any of the loops that can spin forever in
+    the Go code (every stage receives a token stream that ends in exactly one EOF/error token). -/
+theorem assemble_terminates_cleanly (cfg : Config) (src : List UInt8) (f : Fault) :
+    assemble cfg src ≠ .fault f :=
+  assemble_no_fault cfg src f
+
+/-- `err_xor_result` — the outcome is exactly one of: a warrior, an error (`unmodelled` = the
+    expression left the modelled subset of go/types.Eval, where the real code also returns one of
+    the two) -/
+theorem assemble_err_xor_result (cfg : Config) (src : List UInt8) :
+    ((∃ w, assemble cfg src = .ok w) ∧ assemble cfg src ≠ .err ∧ assemble cfg src ≠ .unmodelled) ∨
+    ((∀ w, assemble cfg src ≠ .ok w) ∧ assemble cfg src = .err ∧ assemble cfg src ≠ .unmodelled) ∨
+    ((∀ w, assemble cfg src ≠ .ok w) ∧ assemble cfg src ≠ .err ∧ assemble cfg src = .unmodelled) :=
+  assemble_err_xor cfg src
+
+/-- `expander_terminal_last` — whatever it is given, the FOR expander's output ends with exactly one
+    EOF/error token: after it the goroutine sends nothing, so it cannot block (defect F10) -/
+theorem expander_terminal_last {eval : List Token → SymTab → EvalRes} {ts ts' : List Token}
+    {syms : SymTab} {u : Bool} (h : forExpandWith eval ts syms = .ok (some ts', u)) : Terminated ts' :=
+  expand_terminated h
+
+/-- `passes_bounded` — the scan-and-expand loop performs at most 13 passes -/
+theorem passes_bounded (ts : List Token) (fuel : Nat) (h : 13 ≤ fuel) : forLoop fuel 0 ts = forLoop 13 0 ts :=
+  Gmars.passes_bounded ts fuel h
+
+/-
+  Partial: wall-clock time and resident memory are runtime behaviour the model cannot exhibit;
+  "time proportional to the input after FOR expansion" is not provable as stated because textual
+  EQU expansion is not linear (`a equ b+b`, `b equ c+c`, … doubles per line, as in pMARS). The
+  correspondence domain `soup` runs every case under a deadline and counts goroutines.
+-/
 
 end Gmars.Props.C05
